@@ -46,7 +46,8 @@ ASSUMPTIONS = [
     "checked, never a specific schedule",
     "machine load taints a run in two recognisable ways - a plugin entered after its attempt's deadline (late_start); a plugin "
     "that returned before its deadline while the engine looked at the answer only after the deadline and recorded a timeout "
-    "(late_end; the same signature BEFORE the deadline is not excused) - such a run is re-run in a fresh child, and excluded and "
+    "(late_end; the same signature BEFORE the deadline is not excused); the engine timed an attempt out before the worker pool had "
+    "entered the plugin at all, a whole timeout after the previous write of the action (late_never) - such a run is re-run in a fresh child, and excluded and "
     "counted if it persists",
     "Not covered: durability below the Update* return; back-off durations; goroutines that emit no observable event",
 ]
@@ -348,7 +349,7 @@ def run_engine_check(ctx, profile, n_quick, n_thorough, extra_header="", monitor
         accepted_by_automaton=accepted, rejected_by_automaton=len(live) - accepted,
         monitor_false={m: len(v) for m, v in mon_bad.items()},
         hangs=len(hangs), panics=len(panics), excluded_late_start=len(late), neighbour_search=neighbour,
-        late_start=sum(c["dist"].get("late_starts", 0) for c in late), late_end=sum(c["dist"].get("late_ends", 0) for c in late),
+        late_start=sum(c["dist"].get("late_starts", 0) for c in late), late_end=sum(c["dist"].get("late_ends", 0) for c in late), late_never=sum(c["dist"].get("late_never", 0) for c in late),
         late_reruns=sum(c["dist"].get("late_reruns", 0) for c in cases),
         events_total=sum(c["dist"].get("events", 0) for c in live),
         distribution=_dist(cases),
